@@ -705,6 +705,10 @@ var C12 = register(&HistProp{ID: "C12",
 		g.BMPaused = rapid.Bool().Draw(t, "gen-bm")
 		g.SRPaused = rapid.Bool().Draw(t, "gen-sr")
 		g.MaxBody = 8000
+		// a young chain: no remote token messenger (and no pair) registered yet
+		if rapid.IntRange(0, 7).Draw(t, "gen-nomsgr") == 0 {
+			g.Messengers, g.Pairs = nil, nil
+		}
 		// a flag left out of the genesis file starts paused, whatever the other flag says
 		if rapid.IntRange(0, 5).Draw(t, "gen-absent") == 0 {
 			for _, f := range []string{"bm", "sr"} {
@@ -718,6 +722,11 @@ var C12 = register(&HistProp{ID: "C12",
 	Next: func(g *sim.G, i int) *sim.Op {
 		if op := queuedOp(g); op != nil {
 			return op
+		}
+		if m := g.W.Model; len(m.Msgrs) == 0 {
+			// nothing can be deposited or minted yet: the owner registers a messenger, the token controller links a pair
+			queueOps(g, sim.TxOp("admin:LinkTokenPair", &types.MsgLinkTokenPair{From: m.Roles[3], RemoteDomain: 0, RemoteToken: sim.Pad32([]byte{0xaa, 7}), LocalToken: m.L.Denom}))
+			return sim.TxOp("admin:AddRemoteTokenMessenger", &types.MsgAddRemoteTokenMessenger{From: m.Roles[0], DomainId: 0, Address: sim.Pad32([]byte{0xbb, 7})})
 		}
 		if g.Pct("pauserollback", 6) {
 			// the pauser's pause/unpause(s) in one transaction with a failing message: discarded by the SDK
